@@ -153,14 +153,23 @@ def run(tier, seed):
                      "detail": "batch %d: %s" % (f[2], rec["batches"][: f[2] + 1])})
     if model_viol:
         print("MODEL-DRIFT C17: Loader.tla violates %s" % model_viol)
+    # ---- (4) wrapping inside a whole training run (TrainingRun.tla; replay + real RL4COTrainer.fit)
+    from . import c21_trainrun
+    tr_viol, tr_cov = c21_trainrun.violations(tier, seed)
+    viol += [v for v in tr_viol if v["property"] == "C17"]
+    states += tr_cov["states"]
+    trans += tr_cov["transitions"]
     n_new, n_known = verdict.report("C17", viol)
     samples.append({"real_pass": recs[-1]})
-    cov = {"states": states + st, "transitions": trans, "traces_validated_against_impl": nrep + len(recs),
+    cov = {"states": states + st, "transitions": trans, "traces_validated_against_impl": nrep + len(recs) + tr_cov["tlc_validated_traces"],
            "samples": samples, "exhaustive": True, "replayed_model_states": nrep, "recorded_passes": len(recs),
            "tlc_action_coverage": cov_actions, "known_finding_witnesses": n_known,
+           "training_run": {k: tr_cov[k] for k in ("replayed_runs", "replayed_actions", "tlc_validated_traces", "fit_runs", "models")},
            "explanation": "Loader.tla model-checked for all n<=%d x batch sizes x evaluation batch sizes x loader orders; unshuffled "
                           "behaviours replayed through the real dataset classes wrapped by RolloutBaseline; recorded passes of "
-                          "real loaders validated by LoaderTrace.tla" % maxn}
+                          "real loaders validated by LoaderTrace.tla; TrainingRun.tla: which baseline values a batch carries along whole "
+                          "training runs (wrap at set-up / every regeneration / after baseline updates), replayed into the real "
+                          "REINFORCE module and validated on real RL4COTrainer.fit runs" % maxn}
     verdict.write_evidence("C17", tier, seed, "model_checking", cov,
                            ["stub baseline policy whose reward is an injective function of the instance tag",
                             "num_workers = 0"], time.time() - t0, n_new)
